@@ -498,3 +498,23 @@ func SharedGeom(g GJ) (geom.Geom, func() string) {
 		return ""
 	}
 }
+
+// WrapDeep wraps g in depth nested collections. pattern decides level by level (two bits each, cycled) what stands
+// beside the nested collection: nothing, a point behind it, a point in front of it, or both. The points are fixed
+// lattice points numbered by level, so two geometries wrapped with the same depth and pattern get the same wrapping.
+func WrapDeep(g GJ, depth int, pattern uint64) GJ {
+	inner := g
+	for lvl := 0; lvl < depth; lvl++ {
+		bits := (pattern >> uint(2*(lvl%32))) & 3
+		gc := GJ{T: "GeometryCollection"}
+		if bits&2 != 0 {
+			gc.Geoms = append(gc.Geoms, GJ{T: "Point", Pts: []P2{MkP(float64(5000+lvl), float64(-7000-lvl))}})
+		}
+		gc.Geoms = append(gc.Geoms, inner)
+		if bits&1 != 0 {
+			gc.Geoms = append(gc.Geoms, GJ{T: "Point", Pts: []P2{MkP(float64(-6000-lvl), float64(8000+lvl))}})
+		}
+		inner = gc
+	}
+	return inner
+}
